@@ -71,7 +71,8 @@ Fixpoint variants (n : node) {struct n} : list val :=
              | Some en =>
                let vs := variants en in
                [VSlice true [] 0; VSlice false [] 2; VSlice false [nth_mod (VInt 0) vs 1] 0;
-                VSlice false [nth_mod (VInt 0) vs 2; nth_mod (VInt 0) vs 0; nth_mod (VInt 0) vs 1] 1]
+                VSlice false [nth_mod (VInt 0) vs 2; nth_mod (VInt 0) vs 0; nth_mod (VInt 0) vs 1] 1;
+                VSlice false [nth_mod (VInt 0) vs 1; nth_mod (VInt 0) vs 2] 0]     (* other elements at the same indices *)
              | None => []
              end
       end in
